@@ -122,8 +122,9 @@ type Exec struct {
 	log      []commitRec
 	universe []string
 	Findings []Finding
-	Outcome  []string // normalised observations (vacuity / distinct-outcome accounting)
-	maint    bool     // a maintenance step happened
+	Outcome  []string          // normalised observations (vacuity / distinct-outcome accounting)
+	failedW  map[string]string // value written by a commit that reported an error -> error class
+	maint    bool              // a maintenance step happened
 	reopened bool
 	closed   bool
 	// statistics
@@ -254,6 +255,13 @@ func (x *Exec) envStep(op string) error {
 	case "close":
 		x.closed = true
 		return h.Close()
+	case "reopen-if-idle":
+		for _, t := range x.txns {
+			if t.open {
+				return nil
+			}
+		}
+		return x.envStep("reopen")
 	case "reopen":
 		for _, t := range x.txns {
 			if t.open && !x.closed {
@@ -332,7 +340,7 @@ func (x *Exec) txnStep(ti int, op string) (err error) {
 		}
 		if e != nil {
 			t.rejected[k] = true
-			x.Outcome = append(x.Outcome, fmt.Sprintf("%d.%s=!%s", ti, f[0], errClass(e)))
+			x.Outcome = append(x.Outcome, fmt.Sprintf("%d.set=!%s", ti, errClass(e)))
 			if !errors.Is(e, utils.ErrTxnTooBig) {
 				x.addf("error", "write-error:"+errClass(e), "transaction %d %s returned %v", ti, op, e)
 			}
@@ -344,10 +352,14 @@ func (x *Exec) txnStep(ti int, op string) (err error) {
 		t.open = false
 		x.Outcome = append(x.Outcome, fmt.Sprintf("%d.discard", ti))
 	case "commit":
-		_, _, _, _, t.histBefore = x.db().VerifOracleInfo()
+		if !x.closed {
+			_, _, _, _, t.histBefore = x.db().VerifOracleInfo()
+		}
 		x.finishCommit(ti, t, t.t.Commit())
 	case "commitwith":
-		_, _, _, _, t.histBefore = x.db().VerifOracleInfo()
+		if !x.closed {
+			_, _, _, _, t.histBefore = x.db().VerifOracleInfo()
+		}
 		ch := make(chan error, 1)
 		t.t.CommitWith(func(e error) { ch <- e })
 		select {
@@ -694,6 +706,12 @@ func (x *Exec) finishCommit(ti int, t *txnState, err error) {
 		}
 	default:
 		cls := errClass(err)
+		if x.failedW == nil {
+			x.failedW = map[string]string{}
+		}
+		for k, w := range t.pending {
+			x.failedW[k+"="+string(w.val)] = cls
+		}
 		if cls == "conflict" {
 			x.Conflicts++
 			if !must {
@@ -706,6 +724,9 @@ func (x *Exec) finishCommit(ti int, t *txnState, err error) {
 			x.addf("error", "commit-error:"+cls, "transaction %d Commit returned %v", ti, err)
 		}
 		if !x.closed {
+			if x.Env.ScanAll {
+				x.barrier()
+			}
 			x.scanAll("commit-failed:"+cls, nil, 0)
 		}
 	}
@@ -786,12 +807,18 @@ func (x *Exec) scanAll(when string, committing *txnState, ti int) uint64 {
 	}
 	if committing == nil {
 		if len(fresh) > 0 {
-			cls, sig := "failed", "failed-commit-left-writes"
-			if !strings.HasPrefix(when, "commit-failed") {
-				sig = "unexplained-version-appeared"
+			sig := "unexplained-version-appeared"
+			for _, g := range fresh {
+				if cls, ok := x.failedW[g.k+"="+string(g.val)]; ok {
+					sig = "failed-commit-left-writes error=" + cls
+					break
+				}
 			}
-			sig += " after=" + when
-			x.addf(cls, sig, "%s: stored versions not explained by any acknowledged commit: %s", when, fmtVers(fresh))
+			if i := strings.IndexByte(when, ':'); i >= 0 {
+				when = when[:i]
+			}
+			sig += " seen-at=" + when
+			x.addf("failed", sig, "%s: stored versions not explained by any acknowledged commit: %s", when, fmtVers(fresh))
 		}
 		return 0
 	}
@@ -866,4 +893,24 @@ func fmtVers(vs []verEntry) string {
 		}
 	}
 	return sb.String()
+}
+
+// barrier pushes one more committed write (side key, outside every namespace) through the
+// single FIFO commit pipeline: when it is acknowledged, anything a failed commit may have
+// left in the queue has been applied too, so the following scan is deterministic.
+func (x *Exec) barrier() {
+	db := x.db()
+	bt := db.NewTransaction(true)
+	key := []byte("~barrier")
+	if err := bt.Set(key, []byte("x")); err != nil {
+		bt.Discard()
+		return
+	}
+	if err := bt.Commit(); err != nil {
+		return
+	}
+	// sequential program: the barrier received the last timestamp handed out
+	if v := db.VerifNextTxnTs() - 1; v > x.Env.LastVersion {
+		x.Env.LastVersion = v
+	}
 }
